@@ -428,7 +428,7 @@ func checkC01(c *core.Ctx) error {
 	c.Set("trace_events", st.Events)
 	c.Set("evaluations", len(outs))
 	c.Set("distinct_nontrivial", ok)
-	c.Set("rule", fmt.Sprintf("TLC enumerates GenCases.tla: every type term of constructor depth <= %d over 13 leaves (basics, named basics, local/imported/same-named-import/recursive/embedded structs) x 15 plugins (argument shape per plugin) x 6 call-site forms, restricted to Supported(plugin, T); each case is a real package on which the real goderive runs; TLC validates the hook trace (every helper requested was generated exactly once, tables consistent) and the go/types observations (exit 0, type-checks, no unresolved call); non-trivial = generated and type-checked", depth))
+	c.Set("rule", fmt.Sprintf("TLC enumerates GenCases.tla: every type term of constructor depth <= %d over 16 leaves (basics, three type aliases, named basics, local/imported/same-named-import/recursive/embedded structs) x 15 plugins (argument shape per plugin) x 6 call-site forms, restricted to Supported(plugin, T); each case is a real package on which the real goderive runs; TLC validates the hook trace (every helper requested was generated exactly once, tables consistent) and the go/types observations (exit 0, type-checks, no unresolved call); non-trivial = generated and type-checked", depth))
 	c.Set("exhaustive", len(cases) == total)
 	c.Assume("go/types with a source importer is the definition of 'type-checks' and of 'imports exactly what it uses'")
 	return nil
